@@ -92,3 +92,10 @@ Proof.
   apply RT_obj; [reflexivity|intros; reflexivity|].
   repeat constructor; cbn; auto; try (intros; reflexivity).
 Qed.
+
+From Cty Require Import WalkMembers.
+(* "any value returned by a ... traversal": every member Walk reports of such a value is well-formed, at every depth *)
+Theorem C06_walk_members_wf : forall norm unk t p l, RT norm unk t p -> wf_ty t = true -> has_opt t = false ->
+  walk (V t p) = Ok l -> forall q x, In (q, x) l -> wf_value norm x = true.
+Proof. exact walk_members_wf. Qed.
+Print Assumptions C06_walk_members_wf.
